@@ -39,10 +39,16 @@ def to_coco(s):
     from cocoasm.virtualfiles.coco_file import CoCoFile
     from cocoasm.values import NumericValue
     kw = {}
+    if s.get("noaddr"):   # a file that has no addresses at all (what the disk reader hands over for BASIC / data / text files, and a program without ORG)
+        from cocoasm.values import NoneValue
+        kw["load_addr"] = NoneValue()
+        kw["exec_addr"] = NoneValue()
     if "gaps" in s:       # a file that was read from a tape carries the tape's gap flag
         kw["gaps"] = NumericValue(s["gaps"])
+    kw.setdefault("load_addr", NumericValue(s["load"]))
+    kw.setdefault("exec_addr", NumericValue(s["exec"]))
     return CoCoFile(name=s["name"], extension=s.get("ext", ""), type=NumericValue(s["type"]), data_type=NumericValue(s["dtype"]),
-                    load_addr=NumericValue(s["load"]), exec_addr=NumericValue(s["exec"]), data=list(pattern(s["n"], s["pat"])), **kw)
+                    data=list(pattern(s["n"], s["pat"])), **kw)
 
 
 def brief(s):
